@@ -90,7 +90,7 @@ def sample(res, g, pick):
 def run(res):
     res.assumptions.extend(LENIENT)
     if res.tier == 'thorough':
-        for fam in ('Sc_t1', 'Sc_t2', 'Sc_t3', 'Sc_t4', 'Sc_t5'):
+        for fam in ('Sc_t1', 'Sc_t2', 'Sc_t3', 'Sc_t4', 'Sc_t5', 'Sc_t6'):
             g = check_and_replay(res, 'PopulatorMCT', fam)
             if res.violations:
                 break
